@@ -145,6 +145,18 @@ open Afkak.Consts
 @[simp] theorem hbSchedule_timers (cfg : Cfg) (s : St) : (hbSchedule cfg s).1.timers = s.timers ++ [⟨s.nextTimer, s.now + hbDelay cfg s, .hb⟩] := rfl
 @[simp] theorem hbSchedule_nextTimer (cfg : Cfg) (s : St) : (hbSchedule cfg s).1.nextTimer = s.nextTimer + 1 := rfl
 
+/-- `ConsumerGroup.stop()` by the application: refused while an earlier stop drains (state
+    unchanged), otherwise `stopCall` -/
+theorem userStop_cases (cfg : Cfg) (s : St) :
+    (userStop cfg s = (s, [.stopFired true]) ∧ s.stopDraining = true ∧ s.stopping = false) ∨
+    userStop cfg s = stopCall cfg s none true := by
+  unfold userStop
+  split
+  · rename_i h
+    simp only [Bool.and_eq_true, Bool.not_eq_true'] at h
+    exact Or.inl ⟨rfl, h.1, h.2⟩
+  · exact Or.inr rfl
+
 structure WInv (s : St) : Prop where
   stop_needed : s.stopping = true → s.rejoinNeeded = false
   hb_timer : s.hbRunning = false → (∀ t ∈ s.timers, t.kind ≠ .hb) ∧ s.hbInFlight = false
